@@ -9,17 +9,65 @@ RULE = ("random fill sequences (length 1-30 quick / 1-60 thorough) on a bare Pos
         "non-trivial when the implementation's observation changes at least once")
 ASSUMPTIONS = [
     "every fill has quantity > 0 (quantity = 0 makes rust_decimal panic on a division by zero in approximate_remaining_exit_fees; rejected as bad-op by harness and model)",
-    "all fills of a history are on one instrument (the engine routes by instrument; per-instrument independence is theorem frame_other_instrument)",
+    "all fills of a history are on one instrument (the engine routes by instrument; per-instrument independence is theorem engine_routes_per_instrument)",
     "exact rational arithmetic: the 'up to decimal rounding' of the property is the 1e-18 tolerance of the correspondence, not part of the theorems",
 ]
 SOURCE_FILES = ["barter/src/engine/state/position.rs", "barter/src/engine/state/instrument/mod.rs", "barter-execution/src/trade.rs",
                 "barter/src/engine/state/mod.rs"]
 CLAIM = True
 TECHNIQUE = "Lean 4: invariant by induction over fill histories relating the PositionManager model to net / cash / fee sums of the history; correspondence of the model with PositionManager::update_from_trade and Engine::process"
-LEVEL_TEXT = "TODO"
-LEVEL_NOTE = "TODO"
+LEVEL_TEXT = ("Proof. Lean theorems over the PositionManager model (lean/BarterModel/Props/C02.lean), for every finite fill list on one instrument with "
+              "quantity > 0 (no bound on length or magnitudes; price > 0 and fee >= 0 are not even needed), exact over the rationals: "
+              "size_is_net (signed open quantity = net signed filled quantity, side = sign, flat iff net = 0, quantity_abs = |net|); "
+              "exit_iff_cross / exits_count (a PositionExited is returned by a fill iff the net was non-zero before and is zero or of opposite sign after; "
+              "the number of records over a history is the number of such fills), "
+              "crossing_fill_splits / exact_close / opening_fill (a crossing fill opens the opposite position with the remainder, entry fee fee*rem/q, and "
+              "charges fee*closed/q to the closed one; an exact close charges the whole fee; a fill at net zero opens from that fill alone); "
+              "conservation (sum of closed pnl_realised + open pnl_realised = sell proceeds - buy cost - fees + signed open quantity * average entry price); "
+              "fees_conserved (entry + exit fees over all positions = fees of the fills); trade_ids (every fill id is in the position it leaves open and in the "
+              "record it produces) and position_life / exit_record (trades, quantity_abs_max and time_enter are exactly those of the history-defined life of the "
+              "position; 0 < quantity_abs <= quantity_abs_max); mismatch_ignored; engine_routes_per_instrument + engine_conservation (with interleaved fills on "
+              "any number of instruments every instrument's manager is the run of its own fills, so all of the above hold per instrument). All full strength; "
+              "no _partial theorem. 'Up to decimal rounding' is the exact identity over Q; rust_decimal rounding is covered only by the 1e-18 tolerance of the "
+              "correspondence runs.")
+LEVEL_NOTE = ("Trusted: Lean kernel; axioms propext/Classical.choice/Quot.sound only; the hand-written model of position.rs (tied by sampled correspondence against "
+              "PositionManager::update_from_trade and against Engine::process + EngineOutput::PositionExit: 500 quick / 30k random + all 22 620 sequences of "
+              "length <= 4 over a 12-symbol alphabet thorough, every field of Position / PositionExited compared after every fill, division-derived fields to "
+              "1e-18); harness, driver, orchestrator. Assumes quantity > 0 (quantity = 0 panics in rust_decimal: outside the quantifier) and exact arithmetic "
+              "(Decimal rounding / overflow not modelled; products above ~1e8 are kept out of the generated cases because their rounding exceeds the tolerance).")
+
+
+def _frac(x):
+    from fractions import Fraction
+    return Fraction(x)
 
 
 def signature(ops, k, key, impl_line, spec_line):
-    op = ops[k].split() if k < len(ops) else []
-    return f"clause={key}"
+    """violated clause + class of the fill (open / increase / reduce / close / flip) computed from the ops alone"""
+    mode = "pm"
+    nets = {}
+    cls = "?"
+    for j, line in enumerate(ops[: k + 1]):
+        t = line.split()
+        if t[0] == "init":
+            mode = t[1]
+            continue
+        if t[0] != "fill" or len(t) != 8:
+            continue
+        slot = t[2] if mode == "engine" else "0"
+        q = abs(_frac(t[6]))
+        before = nets.get(slot, 0)
+        after = before + (q if t[4] == "B" else -q)
+        nets[slot] = after
+        if j == k:
+            if before == 0:
+                cls = "open"
+            elif after == 0:
+                cls = "close"
+            elif (before > 0) != (after > 0):
+                cls = "flip"
+            elif abs(after) > abs(before):
+                cls = "increase"
+            else:
+                cls = "reduce"
+    return f"clause={key}/fill={cls}/mode={mode}"
